@@ -7,6 +7,7 @@ import GqlProofs.Format.FmtSchemaTokens
 import GqlProofs.Format.NormPreserveSchema
 import GqlProofs.Format.SchemaDocOf
 import GqlProofs.Format.ReloadExamples
+import GqlProofs.Format.LoadedPrintableDoc
 import GqlProofs.Props.C06
 /-
   Property C13 — format ∘ load round trip for schemas.
@@ -41,13 +42,36 @@ import GqlProofs.Props.C06
         d'.erasePos = (setBuiltIn b (normSchemaDoc cfg d)).erasePos`
     `C13_format_roundtrip_parsed`: the same for every document the parser returned.
 
+  LOADED SCHEMAS (`FormatSchema`, second half of the property):
+    `C13_schema_text_is_raw_document_text : fmtSchema cfg s = fmtSchemaDoc cfg (docOfSchemaRaw s)` — `FormatSchema`
+      prints a DOCUMENT (schema definition / `extend schema` as the formatter decides, directive and type
+      definitions sorted by name), byte for byte, every configuration, every schema;
+    `C13_schema_text_is_document_text` — the same for `docOfSchema cfg s` (hidden `__schema`/`__type` fields
+      dropped), when no printed definition has ONLY hidden fields (`NoAllHidden`);
+    `C13_schema_format_tokens`, `C13_schema_format_parses` — the text lexes to the unparser's tokens and parses back
+      to `docOfSchema cfg s` (normalised) up to positions;
+    `C13_schema_reload` / `C13_schema_reload_of_sources` / `C13_schema_reload_document` — loading `prelude ⊕` the
+      parsed text succeeds and gives a schema `ReloadEquiv` to `s` (same roots; name by name the same types, fields,
+      arguments, defaults, directives, descriptions up to positions and string-kind normalisation; same directive
+      definitions, schema directives, possible types and implementers up to order), for every configuration
+      without `WithBuiltin` (also `WithoutDescription`: then `normDef cfg` drops the descriptions);
+    the loader reads SKELETONS only (GqlProofs/Format/LoadSkeleton.lean): `validate…_sk`.
+    Exceptions, each a kernel-checked theorem: `C13_schema_description_not_printed` / `…_counterexample` (R13e),
+      `C13_builtin_output_not_reloadable`, `C13_schema_not_a_fixpoint_counterexample`,
+      `C13_schema_linebreak_indent_counterexample`; NEW FINDINGS `C13_schema_hidden_fields_counterexample`
+      (`scalar Query` prints `scalar Query {⏎}`), `C13_schema_reload_needs_no_builtin_extension`
+      (`extend type __Type { … }` is lost).
+
   NOT proved (kept so that nothing is weakened silently):
     theorem C13_doc_fixpoint … : fmtSchemaDoc cfg d' = fmtSchemaDoc cfg d
       — false as stated: with `WithoutDescription` the comma after an argument that has a description
-        is skipped (KNOWN FINDING sd:not-a-fixpoint); moreover the formatter looks at positions
-        (`fieldSuppressed`: line 0; built-in source 0), so it is not invariant under `erasePos`.
-    theorem C13_schema_roundtrip … : load (fmtSchema cfg s) = ok s' ∧ s' ≃ s   (loaded schemas:
-      `FormatSchema`; needs the loader model; R13e: `Schema.Description` is never printed)
+        is skipped (KNOWN FINDING sd:not-a-fixpoint, `C13_schema_not_a_fixpoint_counterexample`); moreover the
+        formatter looks at positions (`fieldSuppressed`: line 0; built-in source 0), so it is not invariant
+        under `erasePos`.  The fixpoint for loaded schemas WITHOUT `WithoutDescription`
+          theorem C13_schema_fixpoint … : fmtSchema cfg s' = fmtSchema cfg s   (s' the reloaded schema)
+        is not proved either: it needs `fmtSchemaDoc` invariant under `erasePos`/`normDef` for documents whose
+        fields all have positions, and `sortedByKey` of the reloaded maps (same keys) — lemmas
+        `fmtSchemaDoc_erasePos`, `fmtSchemaDoc_norm`, `sortedByKey_congr_keys` are missing.
 -/
 open Gql Gql.Lexer Gql.Format Gql.Grammar Gql.Print Gql.Parser
 
@@ -372,6 +396,64 @@ theorem C13_schema_reload_document {cfg : Cfg} (hb : cfg.emitBuiltin = false) (p
     ∃ s', load (pre.merge P) = .ok s' ∧ ReloadEquiv cfg s s' :=
   reload_main hb hpre hu hload hP hrp
 
+open Gql.Load in
+/-- (3′) **the same with hypotheses about the SOURCES only.**  `s` is loaded from `prelude ⊕ u`; the merged
+    source document is formattable and satisfies the side conditions of the grammar (`FormattableSchema`,
+    `DocAll ItemOK`: both are what the lexer and the parser guarantee, cf. `C06_parse_printable`); the
+    query root is an object, interface or input object type (`QueryRootHasFields`; it cannot be dropped:
+    `C13_schema_hidden_fields_counterexample`).  Then the formatted text of `s` parses, loads on top of the
+    prelude, and the result is `ReloadEquiv` to `s`.  The hypotheses about `s` of `C13_schema_reload` are
+    derived: `noAllHidden_of_loaded`, `docOfSchema_printable`, `rootsPrintable_of_loaded`. -/
+theorem C13_schema_reload_of_sources {cfg : Cfg} (hind : AllBlank cfg.indent) (hb : cfg.emitBuiltin = false)
+    (pre u : SchemaDoc) (s : Schema) (hpre : PreludeShape pre) (hu : UserShape pre u)
+    (hload : load (pre.merge u) = .ok s) (hF : FormattableSchema (pre.merge u)) (hI : DocAll ItemOK (pre.merge u))
+    (hq : QueryRootHasFields s) (src : Nat) :
+    ∃ P s', parseSchemaSrc 0 src false (fmtSchema cfg s) = .ok P ∧ load (pre.merge P) = .ok s' ∧ ReloadEquiv cfg s s' := by
+  obtain ⟨hd, hok⟩ := docOfSchema_printable (cfg := cfg) hb hload hF hI
+  have hs : SchemaDefsHaveRoots (pre.merge u) := by
+    intro x hx
+    obtain ⟨_, hne, hops⟩ := hI.1 x hx
+    cases hl : x.opTypes with
+    | nil => exact absurd hl hne
+    | cons o rest =>
+      refine ⟨o, by simp, ?_⟩
+      have := hops o (by rw [hl]; simp)
+      rcases this with h | h | h <;> rw [h] <;> decide
+  exact C13_schema_reload hind hb pre u s hpre hu hload (noAllHidden_of_loaded cfg hload hq) hd hok
+    (rootsPrintable_of_loaded hload hs) src
+
+open Gql.Load Gql.Format.Examples in
+/-- non-vacuity of the reload theorem: `"d" schema { query: Q } type Q { f: Q }` (custom root name) satisfies the
+    hypotheses of `C13_schema_reload_document` for the printed document itself -/
+example : ∃ s', load (SchemaDoc.empty.merge (printed {} (loadD (SchemaDoc.empty.merge describedSchemaDoc)))) = .ok s' ∧
+    ReloadEquiv {} (loadD (SchemaDoc.empty.merge describedSchemaDoc)) s' :=
+  C13_schema_reload_document rfl SchemaDoc.empty describedSchemaDoc _ _ (by decide) (by decide)
+    (loadD_ok (by decide)) rfl (by decide)
+
+open Gql.Load Gql.Format.Examples in
+/-- non-vacuity of (3′): `type Query { f: Query }` on the empty prelude satisfies every hypothesis -/
+example : ∃ P s', parseSchemaSrc 0 1 false (fmtSchema {} (loadD (SchemaDoc.empty.merge plainQueryDoc))) = .ok P ∧
+    load (SchemaDoc.empty.merge P) = .ok s' ∧ ReloadEquiv {} (loadD (SchemaDoc.empty.merge plainQueryDoc)) s' := by
+  have hI : DocAll ItemOK (SchemaDoc.empty.merge plainQueryDoc) := by
+    unfold DocAll
+    refine ⟨?_, ?_, ?_, ?_, ?_⟩
+    · intro x hx; cases hx
+    · intro x hx; cases hx
+    · intro x hx; cases hx
+    · intro x hx
+      simp only [SchemaDoc.merge, SchemaDoc.empty, plainQueryDoc, docOf, List.nil_append, List.mem_singleton] at hx
+      subst hx
+      refine ⟨cdirs_nil, rfl, rfl, ?_⟩
+      intro f hf
+      simp only [mkDef, List.mem_singleton] at hf
+      subst hf
+      refine ⟨?_, rfl, cdirs_nil⟩
+      intro a ha
+      simp [field] at ha
+    · intro x hx; cases hx
+  exact C13_schema_reload_of_sources (by intro b hb; simp at hb; subst hb; decide) rfl SchemaDoc.empty plainQueryDoc _
+    (by decide) (by decide) (loadD_ok (by decide)) (by decide) hI (by decide) 1
+
 /-! ### the recorded exceptions, kernel-checked -/
 
 /-- R13e (KNOWN FINDING `s:roundtrip-tree-differs/SCHEMA.description`): `FormatSchema` does not look at
@@ -571,6 +653,7 @@ end Witnesses
 #print axioms C13_schema_format_parses
 #print axioms C13_schema_reload
 #print axioms C13_schema_reload_document
+#print axioms C13_schema_reload_of_sources
 #print axioms C13_schema_description_not_printed
 #print axioms C13_schema_description_counterexample
 #print axioms C13_builtin_output_not_reloadable
